@@ -322,10 +322,10 @@ Section SimSave.
     Rel st m -> loop_facts st sl -> has_empty_list (s_pend (m_st m)) = false ->
     Rel (with_unsaved sl [])
         {| m_st := {| s_store := apply_entries opts (s_store (m_st m)) (pend_entries (s_pend (m_st m))); s_pend := [] |};
-           m_det := []; m_f1 := false; m_f3 := false |}.
+           m_det := []; m_f1 := false; m_f3 := false; m_fs := m_fs m |}.
   Proof.
     intros R LF He. pose proof LF as [A [B [HP [HD HL]]]].
-    constructor; cbn [m_st m_det m_f1 m_f3 s_store s_pend with_unsaved m_parsers m_config m_defaults m_unsaved]; auto.
+    constructor; cbn [m_st m_det m_f1 m_f3 m_fs s_store s_pend with_unsaved m_parsers m_config m_defaults m_unsaved]; auto.
     - rewrite HP. exact (r_pkeys _ _ _ _ R).
     - intros cn k Hin. rewrite HP. exact (r_ptys _ _ _ _ R _ _ Hin).
     - intros cn k Hin. eapply cfg_after_loop; eassumption.
@@ -394,10 +394,10 @@ Section SimSave.
   Lemma rel_after_reject st m sl :
     Rel st m -> loop_facts st sl -> map fst (m_unsaved sl) = map fst (m_unsaved st) ->
     has_empty_list (s_pend (m_st m)) = false ->
-    Rel sl {| m_st := m_st m; m_det := scalar_keys (s_pend (m_st m)); m_f1 := false; m_f3 := false |}.
+    Rel sl {| m_st := m_st m; m_det := scalar_keys (s_pend (m_st m)); m_f1 := false; m_f3 := false; m_fs := m_fs m |}.
   Proof.
     intros R LF Hkeys He. pose proof LF as [A [B [HP [HD HL]]]].
-    constructor; cbn [m_st m_det m_f1 m_f3]; auto.
+    constructor; cbn [m_st m_det m_f1 m_f3 m_fs]; auto.
     - rewrite HP. exact (r_pkeys _ _ _ _ R).
     - intros cn k Hin. rewrite HP. exact (r_ptys _ _ _ _ R _ _ Hin).
     - intros cn k Hin. eapply cfg_after_loop; eassumption.
